@@ -13,12 +13,12 @@ RULE = ('Workload of C04 (references with several contigs, N, lower case, repeat
         'is checked against the real alignment: a record at (contig, 1-based position) exactly where some sample differs '
         'from the upper-case reference base, REF = reference base (N if not A/C/G/T), every genotype decodes through '
         'REF/ALT to the aligned character (. for -, N for ambiguity codes), contig and sample names/order, records in '
-        'reference order.  Cross-check: the alignment itself against the C04 model.  Non-trivial: at least one record '
+        'reference order.  Cross-check: the alignment itself against the C04 model.  One case in twelve has ambiguity codes in the reference (REF must then read N; no model cross-check there).  Non-trivial: at least one record '
         'expected; distinct = distinct (k, mode, flags, reference, samples).')
 ASSUMPTIONS = ['the oracle is the real `ska map -f aln` output of the same run; C05 stays meaningful if C04 fails',
                'contig names are c<i> ([A-Za-z0-9_.] only)']
 REQUIRED = {t: ['records_checked', 'multiallelic_records', 'records_on_later_contigs', 'ref_N_records',
-                'lowercase_ref_cases', 'missing_genotypes', 'N_genotypes'] for t in ('quick', 'thorough')}
+                'lowercase_ref_cases', 'missing_genotypes', 'N_genotypes', 'references_with_ambiguity_codes'] for t in ('quick', 'thorough')}
 
 
 def builds(tier):
@@ -26,7 +26,11 @@ def builds(tier):
 
 
 def plan(tier, seed, rng, scale):
-    return c04.plan(tier, seed + 5000, rng, scale * 0.8)
+    descs = c04.plan(tier, seed + 5000, rng, scale * 0.8)
+    for i, d in enumerate(descs):
+        if i % 12 == 5 and d['kind'] in ('random', 'pattern', 'lower'):
+            d['iupac_ref'] = True        # reference bases that are neither A/C/G/T nor N: REF must read N
+    return descs
 
 
 def parse_vcf(txt):
@@ -171,9 +175,13 @@ def run_case(desc, ctx):
         if order != exp_keys and not bad:
             bad.append('records not in reference order or keys differ')
         # cross-check the alignment against the C04 model
-        exp_aln, matched, _masked = c04.expected_map(ref, st['table'], len(names), k, rcmode, desc['am'], desc['rm'])
-        if gs != exp_aln:
-            res.count('alignment_differs_from_model(C04)')
+        if desc.get('iupac_ref'):
+            if variant == 'rel':
+                res.count('references_with_ambiguity_codes')
+        else:
+            exp_aln, matched, _masked = c04.expected_map(ref, st['table'], len(names), k, rcmode, desc['am'], desc['rm'])
+            if gs != exp_aln:
+                res.count('alignment_differs_from_model(C04)')
         if bad:
             res.violate('C05:%s:vcf' % (fl or 'none'),
                         'k=%d rc=%s flags=%s kind=%s (%s): %s' % (k, rcmode, fl or 'none', desc['kind'], variant, '; '.join(bad[:4])),
